@@ -47,6 +47,8 @@ type WCellEv struct {
 	NLeaves      int       `json:"nleaves"`
 	Mutated      int       `json:"mutated"`
 	TwinDiff     int       `json:"twinDiff"`
+	LineOn       int       `json:"lineOn"` // 1: the leaves are the complete line of one draw (all its values, other draws fixed)
+	LineDraw     int       `json:"lineDraw"`
 	SepZeroEnt   int       `json:"sepZeroEnt"` // 1: the separator function reports entropy 0 although it is random
 	Grp          int       `json:"grp"`        // >0: all wcells with this group describe the same word multiset and recipe
 	Times        int       `json:"times"`      // how many constructions produced exactly this outcome
@@ -294,7 +296,45 @@ func wlCellEvents(id int, sc Scenario, seed int64, pre *spg.WLRecipe, preWL *spg
 	if maxLeaves == 0 {
 		maxLeaves = 20000
 	}
-	if sc.Mode == "paths" {
+	if sc.Mode == "line" {
+		// all values of ONE draw, every other draw held at a seeded fixed index: a complete marginal
+		e.MaxProd, e.MaxDraws = 0, 400000
+		e.RejectProb = 0
+		var res GenRes
+		fixed := map[int]uint32{}
+		pr := mrand.New(mrand.NewSource(seed + 99))
+		e.Policy = func(j int, n uint32) uint32 {
+			if v, ok := fixed[j]; ok && v < n {
+				return v
+			}
+			v := uint32(pr.Int63n(int64(n)))
+			fixed[j] = v
+			return v
+		}
+		base := e.Run(nil, body(&res))
+		target := sc.Line
+		if target < 0 || target >= len(base.Draws) {
+			target = 0
+		}
+		cell.LineOn, cell.LineDraw = 1, target
+		if len(base.Draws) > 0 {
+			n := base.Draws[target].N
+			for i := uint32(0); i < n; i++ {
+				plan := make([]uint32, target+1)
+				for j := 0; j < target; j++ {
+					plan[j] = base.Draws[j].I
+				}
+				plan[target] = i
+				out := e.Run(plan, body(&res))
+				full := make([]uint32, len(out.Draws))
+				for k, d := range out.Draws {
+					full[k] = d.I
+				}
+				visit(full, out, res)
+			}
+		}
+		e.Policy = nil
+	} else if sc.Mode == "paths" {
 		e.MaxProd, e.MaxDraws = 0, 400000
 		for k := 0; k < sc.Paths; k++ {
 			var res GenRes
